@@ -27,10 +27,7 @@ func metricsOpsAllowed(class int) (unsortedOK, sortedOK bool) {
 	if class < 0 {
 		return true, true
 	}
-	switch mclasses[class].name {
-	case "restart-dicts":
-		return false, false
-	}
+	// (the restart-dicts class was excluded here until 58b1b15 repaired the codec defect below it)
 	return true, true
 }
 
